@@ -536,3 +536,5 @@ def check(run):
     r6_recipient(run)
     r7_own_endpoints(run)
     r8_came_from(run)
+    from ..common_rules import misplaced_rule
+    misplaced_rule(run, "R9", {"client_base", "response", "client"}, "response parsing")
